@@ -186,7 +186,10 @@ def programs_for(tier, seed):
             form = gen.IMPORT_FORMS[(i // 3) % len(gen.IMPORT_FORMS)]
             # every other skeleton with function-local imports (dds, and a top-level module nothing else imports)
             p = progs.base_program("c3b%d" % i, layout=lay, import_form=form, entry_data=(i % 2 == 0), local=(i % 6 == 3))
-            vid = gen.add_var(p, p["_ids"]["leaf"], "V3", list(gen.VAR_KINDS)[i % len(gen.VAR_KINDS)])
+            # the variable is sometimes named like a builtin that functions of other modules / programs call
+            # (the programs evaluated earlier in the "after_k_other_evaluations" variants do; this one does not)
+            vname = ["V3", "max", "sorted", "format"][(i // 3) % 4]
+            vid = gen.add_var(p, p["_ids"]["leaf"], vname, list(gen.VAR_KINDS)[i % len(gen.VAR_KINDS)])
             p["order"][p["_ids"]["leaf"]].remove(("var", vid))
             p["order"][p["_ids"]["leaf"]].insert(0, ("var", vid))
             p["fns"][p["_ids"]["h2"]]["reads"].append([vid, "bare"])
@@ -209,6 +212,9 @@ def run(tier, seed):
     )
     ps = programs_for(tier, seed)
     others = [progs.random_program(core.rng_for(seed, "c03o", i), "c3o%d" % i) for i in range(8)]
+    # the program evaluated right before calls Python builtins whose names some target programs use for module variables
+    for f in others[0]["fns"].values():
+        f["uses_builtins"] = True
     jobs = [("prog", (i, p, others, tier)) for i, p in enumerate(ps)]
     if os.path.exists(CORPUS):
         with open(CORPUS) as f:
@@ -237,6 +243,8 @@ def replay(payload):
     c = payload["case"]
     if "program" in c:
         others = [progs.random_program(core.rng_for(0, "c03o", i), "c3o%d" % i) for i in range(8)]
+        for f in others[0]["fns"].values():
+            f["uses_builtins"] = True
         rep.merge(program_job((0, c["program"], others, "thorough")))
     else:
         with open(CORPUS) as f:
